@@ -547,7 +547,7 @@ def run(ctx, objdir, h):
     for rd in range(rounds):
         for v in variants:
             # the variants that are regression cases of repaired defects get fewer option sets, the first one `-P .`
-            nsets = ctx.n(1, 5) if v in REGRESSION_VARIANTS else ctx.n(2, 10)
+            nsets = ctx.n(1, 5) if v in REGRESSION_VARIANTS else (ctx.n(1, 8) if v in ("clang", "pfe-cxx") else ctx.n(2, 10))
             try:
                 prog = build_program(ctx, gen_program(rng, v), "%s-%d" % (v, rd))
             except RuntimeError as e:
